@@ -237,31 +237,11 @@ Print Assumptions C04_deref_unset_default.
 
 (* ---------- D15: readidx of an unset field / the repaired instruction ---------- *)
 
-(* faithful model: the default goes to cell idx, not var + idx *)
-Theorem C04_readidx_unset_writes_cell_idx : forall m l ty v i s g sg,
-  (ty =? 7) = false -> scope_ok l s g -> 0 <= g ->
-  nth_error (heap s) (Z.to_nat g) = Some sg -> 0 <= v + i ->
-  nth_error (s_cells sg) (Z.to_nat (v + i)) = Some None ->
-  0 <= i < Z.of_nat (length (s_cells sg)) ->
-  exec m (IReadidx l ty v i) s
-  = R tt (with_hs s (upd_heap (heap s) (Z.to_nat g) (Z.to_nat i) (Some (default_cell ty)))
-                  (default_cell ty :: stack s)).
-Proof. exact readidx_unset_wrong_cell. Qed.
-Print Assumptions C04_readidx_unset_writes_cell_idx.
-
-(* witness (LayoutProofs.d15_state): frame [x% = 7; y$ = "hi"; v.a unset; v.b unset]
-   and `readidxl% 2, 1` (PRINT v.b): cell var + idx = 3 is read, the default is
-   written to cell idx = 1, which is the live variable y$ *)
-Theorem C04_readidx_changes_other_cell_refuted :
-  exists m s s' g i j,
-    exec m (IReadidx true 1 2 1) s = R tt s' /\
-    (g, j) <> (g, i) /\
-    i = 3%nat /\                                         (* the cell that was read: var + idx *)
-    cellat (heap s) g j = Some (Some (CStr [104; 105])) /\ (* a live variable elsewhere *)
-    cellat (heap s') g j = Some (Some (CI 0)) /\          (* ... has been overwritten *)
-    cellat (heap s') g i = Some None.                     (* ... and the cell read is still unset *)
-Proof. exact readidx_changes_other_cell_refuted. Qed.
-Print Assumptions C04_readidx_changes_other_cell_refuted.
+(* D15 was repaired in /repo (fix commit): the instruction is the corrected one *)
+Theorem C04_readidx_is_fixed : forall m l ty v i s,
+  exec m (IReadidx l ty v i) s = exec_readidx_fixed l ty v i s.
+Proof. exact readidx_is_fixed. Qed.
+Print Assumptions C04_readidx_is_fixed.
 
 (* corrected instruction (write_var(scope, var + idx, value)): pure on a set
    cell, and an unset cell gets its default in place *)
